@@ -258,6 +258,8 @@ def value_ast(v, kind, rng=None):
         return number_ast(v)
     if kind == "boolean":
         return {"t": "ustr", "v": "True" if v else "False", "cls": "word"}
+    if kind == "tuple" and isinstance(v, list) and not v:
+        return {"t": "list", "items": [], "trail": False}      # the empty metadata value is written []
     if kind == "tuple":
         return {"t": "tuple", "pairs": [[{"v": k, "q": '"'}, {"t": "qstr", "v": str(x), "q": '"'}] for k, x in v.items()], "trail": False}
     if isinstance(v, list):
